@@ -32,5 +32,7 @@ WeakOrder == Len(in) = 0 => \A a, b, c \in Items :
                /\ ~lt(a, a)
                /\ (lt(a, b) /\ lt(b, c)) => lt(a, c)
                /\ (Eqv(lt, a, b) /\ Eqv(lt, b, c)) => Eqv(lt, a, c)
+\* the linear shortcut of the failure clause is sound: flat inputs have no uncomparable pair
+FlatSound == Flat(in) => \A i, j \in 1..Len(in) : ~Unc(o, KR, in[i], in[j])
 NoFailure == ~MustThrow(in, o, KR) /\ ~MayThrow(in, o, KR)
 =============================================================================
